@@ -179,4 +179,34 @@ example (g0 : Gslb) (h0 : gslbInit [⟨"sub-b", 100⟩] = some g0) :
   C14_subcluster_history [⟨"sub-b", 100⟩] g0 h0 [] _ _ (by decide) (by simp)
     (by decide) (by decide) (by decide)
 
+/-! ### SLB: session-sticky selection is a function of the final backend set only -/
+
+/-- **`C14_slb_history_independent`**: take ANY state of a sub-cluster's balancer (any earlier `Update`s and sticky
+    requests, which may have sorted the list), update it to the backend set `conf` (new backends arriving in any
+    Go-map order): every sticky selection equals the one of a balancer freshly initialised with the same set in any
+    file order `conf'`.  (Holds because `Update` always clears `sorted`; if it is cleared only when the COUNT
+    changes, a same-count replacement leaves new backends appended unsorted.) -/
+theorem C14_slb_history_independent (s : Slb) (hs : (s.backends.map (·.name)).Nodup) (conf conf' : List Sub)
+    (hp : conf.Perm conf') (hn : (conf.map (·.name)).Nodup) (h : Int) :
+    (slbSticky (slbUpdate s conf) h).1 = (slbSticky (slbInit conf') h).1 := by
+  have hperm := slbUpdate_perm s conf hs hn
+  have hsort : (slbUpdate s conf).backends.mergeSort subLe = conf'.mergeSort subLe :=
+    sort_eq_of_perm (hperm.trans hp) (names_nodup_of_perm hperm hn)
+  have h1 : (slbUpdate s conf).sorted = false := rfl
+  simp only [slbSticky, slbEnsureSorted, h1, slbInit, Bool.false_eq_true, if_false, hsort]
+
+/-- the same after a whole history of updates and sticky requests starting from a fresh `Init` -/
+theorem C14_slb_history (first : List Sub) (ops : List SlbOp) (final final' : List Sub)
+    (hf : (first.map (·.name)).Nodup) (hops : ∀ c, SlbOp.update c ∈ ops → (c.map (·.name)).Nodup)
+    (hp : final.Perm final') (hn : (final.map (·.name)).Nodup) (h : Int) :
+    (slbSticky (slbUpdate (slbRun (slbInit first) ops) final) h).1 = (slbSticky (slbInit final') h).1 :=
+  C14_slb_history_independent _ (slbRun_nodup ops (slbInit first) hf hops) final final' hp hn h
+
+/-- why the flag matters: a state whose list is marked sorted but is not (what a same-count `Update` leaves behind when
+    `sorted` is not cleared) selects differently from a fresh load of the same backends -/
+theorem C14_witness_slb_stale_sorted :
+    (slbSticky { backends := [⟨"10.0.0.3:80", 1⟩, ⟨"10.0.0.0:80", 1⟩], sorted := true } 0).1 = some "10.0.0.3:80" ∧
+    stickyWalk [⟨"10.0.0.0:80", 1⟩, ⟨"10.0.0.3:80", 1⟩] 0 = some "10.0.0.0:80" := by
+  constructor <;> decide
+
 end BfeVerif.C14
